@@ -218,15 +218,11 @@ static void judge_nfc_direct(const U32& s) {
   U32 exp = refidna::nfc(s);
   R.evaluations++; R.counters["traces_validated"]++; R.counters["nfc_direct_strings"]++;
   if (exp != s) { R.nontrivial++; R.distinct.insert(hash64(u8(exp)) ^ 0x22); }
-  bool claims = ada::idna::is_already_nfc(s);
+  // (ada::idna::is_already_nfc is only a shortcut hint: answering "no" for an NFC string is not judged; what counts is the result)
   if (!ok) { viol("nfc-direct/returned-false", "normalize([" + cps(s) + "]) returned false", wit("nfc-direct", s).done(), s.size()); return; }
-  if (claims != (exp == s)) {
-    // is_already_nfc may say "no" for an NFC string (then the slow path runs): only a wrong "yes" is a defect
-    if (claims) R.counters["is_already_nfc_wrong_yes"]++; else R.counters["is_already_nfc_conservative_no"]++;
-  }
   if (got == exp) return;
   std::string cls = "nfc-direct/" + nfc_wrong_shape(s);
-  viol(cls, "normalize([" + cps(s) + "]) = [" + cps(got) + "], NFC = [" + cps(exp) + "]" + (claims ? " (is_already_nfc said yes)" : ""), wit("nfc-direct", s).done(), s.size());
+  viol(cls, "normalize([" + cps(s) + "]) = [" + cps(got) + "], NFC = [" + cps(exp) + "]", wit("nfc-direct", s).done(), s.size());
 }
 // "as used": inside to_ascii, after the mapping step (only code points the mapping step lets through unchanged)
 static void judge_nfc_as_used(const U32& s) {
@@ -341,9 +337,6 @@ static void judge_puny_dec(const std::string& s) {
   if (ok) {
     if (!all_scalar(out)) { R.counters["punycode_decode_nonscalar_not_judged"]++; return; }  // RFC 3492 itself does not bound the integers
     for (int i = 0; i < 3; i++) if (m[i] && *m[i] == out) return;
-    Variant v; v.mask = 1u << D_PUNY_DELIM;
-    auto d = v.decode(s);
-    if (d && *d == out && !refidna::punycode_decode(s)) { viol("punycode/decode-leading-delimiter", "punycode_to_utf32(\"" + s + "\") = [" + cps(out) + "]; RFC 3492 6.2: a delimiter with no basic code points before it is not consumed, so '-' is an invalid digit: failure", w, s.size()); return; }
     viol(std::string("punycode/decode:") + (m[1] ? "different-output" : "ada-accepts"), "punycode_to_utf32(\"" + s + "\") = [" + cps(out) + "], RFC 3492 = " + (m[1] ? "[" + cps(*m[1]) + "]" : "failure"), w, s.size());
   } else {
     for (int i = 0; i < 3; i++) if (!m[i]) return;
@@ -556,11 +549,12 @@ static void audit_cp(char32_t c) {
   auto show_ta = [&](const U32& probe) { std::string o; bool ok = ada::idna::to_ascii(u8(probe), o); auto m = model_to_ascii8(u8(probe)); return "to_ascii(\"" + vis(probe) + "\") = " + optshow(adares(ok, o)) + ", UTS46 = " + optshow(m); };
   // combining marks (criterion 6) vs General_Category=M (U17)
   {
-    bool a = AT().is_mark(c), m = refidna::is_mark(c);
-    if (c == ZWNJ || c == ZWJ) R.counters["audit_mark_not_isolable"]++;
+    int pm = AT().mark_probe(c);
+    bool a = pm == 1, m = refidna::is_mark(c);
+    if (pm < 0) R.counters["audit_mark_not_observable"]++;   // ZWJ/ZWNJ, and AN characters (a label may never start with AN anyway)
     else if (a != m) viol(!a && newer_than_13(c) ? "table/combining-mark-stale" : "table/combining-mark-wrong", std::string(b) + ": General_Category=Mark in Unicode 17 is " + (m ? "true" : "false") + ", ada's combining-mark table says " + (a ? "true" : "false") + "; " + show_ta(U32{c, U'a'}), wit("audit-mark", in).done(), 1);
   }
-  // canonical combining class (through is_already_nfc ordering probes) vs U17
+  // canonical combining class (through the order in which normalize() leaves two marks) vs U17
   {
     int a = AT().ccc(c), m = refidna::ccc(c);
     if (a < 0) R.counters["audit_ccc_not_probeable"]++;
